@@ -136,6 +136,7 @@ func main() {
 	genHooks()
 	genActivate()
 	genManagerDo()
+	genLastMod()
 	genBounds()
 	genMsgBounds()
 	if forProp == "" || forProp == "C15" {
